@@ -2,6 +2,7 @@ import FFVerif.Props.C02
 import FFVerif.Pins.pinDiagonalize
 import FFVerif.Pins.pinPropagatorAtArbT
 import FFVerif.Pins.pinConcatenate
+import FFVerif.Pins.C02_source_shape
 #print axioms FFVerif.C02.hamiltonian_entries
 #print axioms FFVerif.C02.piecewise_entries
 #print axioms FFVerif.C02.segProp_conjTranspose
@@ -45,7 +46,7 @@ import FFVerif.Pins.pinConcatenate
 #print axioms FFVerif.C02.propagatorAtArbT_is_exp
 #print axioms FFVerif.C02.propagatorAtArbT_hasDerivAt
 #print axioms FFVerif.C02.propagatorAtArbT_tendsto_right
-#print axioms FFVerif.C02.source_shape
 #print axioms FFVerif.Pins.pinDiagonalize
 #print axioms FFVerif.Pins.pinPropagatorAtArbT
 #print axioms FFVerif.Pins.pinConcatenate
+#print axioms FFVerif.C02.source_shape
